@@ -490,4 +490,10 @@ Proof.
   - (* OWithdraw *)
     unfold withdraw in E. apply credit_spec in E. destruct E as (_ & Hh & _).
     unfold hold_of. rewrite Hh. lia.
+  - (* ODelegate *)
+    apply delegate_spec in E. destruct E as (_ & Hh & _).
+    unfold hold_of. rewrite Hh. lia.
+  - (* OTime *)
+    apply set_time_spec in E. destruct E as (_ & Hh & _).
+    unfold hold_of. rewrite Hh. lia.
 Qed.
